@@ -290,6 +290,8 @@ class Session:
         self.persisted: set = set()
         self.bycatch: list = []
         self.stop = None
+        self.fresh_canvas = None
+        self.screen_canvas = None
         self.size = SIZES[0]
         self.saved = None
         self.in_key = False
@@ -610,6 +612,7 @@ class Session:
         self.size = SIZES[si % len(SIZES)]
         self.log.clear()
         canv = self.guard("render", self.root.w.render, self.size, True)
+        self.fresh_canvas = canv
         self.screen_canvas = canv  # the display keeps the last canvas alive; CanvasCache entries live as long as it does
         ch = self.chain()
         onpath = {ch[-1].sid} if ch[-1].kind == "leaf" else set()
@@ -708,8 +711,27 @@ class Session:
         row %= rows
         self.log.clear()
         before = self.snapshot()
+        target = None
+        fresh = self.fresh_canvas
+        if fresh is not None:
+            from vmon.monitors.c08_spies import canvas_cell
+
+            try:
+                target = canvas_cell(fresh, col, row)
+            except Exception:  # noqa: BLE001
+                target = None
         self.guard("mouse_event", self.root.w.mouse_event, self.size, "mouse press", 1, col, row, True)
         self.c("mouse_presses")
+        if target is not None:
+            # observation only (not a clause of the statement): a press on a cell that shows a leaf
+            self.c("mouse_press_on_leaf_cell")
+            got = any(e[0] == "mouse" and e[1] == target[0] for e in self.log.events)
+            self.c("mouse_press_on_leaf_cell_delivered" if got else "mouse_press_on_leaf_cell_not_delivered")
+            leaf = next((x for x in all_nodes(self.root) if x.sid == target[0]), None)
+            if leaf is not None and leaf.base.selectable():
+                self.c("mouse_press_on_selectable_leaf")
+                if any(x is leaf for x in self.chain()):
+                    self.c("mouse_press_on_selectable_leaf_now_focused")
         self.c("leaf_mouse_events", sum(1 for e in self.log.events if e[0] == "mouse"))
         if not self.snap_eq(before, self.snapshot()):
             self.c("mouse_presses_that_moved_focus")
@@ -958,6 +980,8 @@ class Session:
         self.nops += 1
         self.c("ops_applied")
         self.c(f"op:{k}")
+        if k != "mouse":
+            self.fresh_canvas = None
         if k == "render":
             self.op_render(op[1])
         elif k == "key":
@@ -1085,6 +1109,12 @@ def gen_op(rng, gen, s: Session):
     nodes = all_nodes(s.root)
     conts = [n for n in nodes if n.kind != "leaf"]
     x = rng.random()
+    if x < 0.38 and rng.random() < 0.8:
+        try:
+            if not s.root.w.selectable():  # MainLoop would not deliver the key: spend the op on something else
+                x = rng.uniform(0.38, 1.0)
+        except Exception:  # noqa: BLE001
+            pass
     if x < 0.30:
         return ["key", rng.choice(NAV_KEYS)]
     if x < 0.38:
